@@ -7,6 +7,7 @@ import CnvVerif.Generated.ExprsScan
 import CnvVerif.Lemmas.CallExt
 import Mathlib.Data.Rat.Floor
 set_option linter.unusedTactic false
+set_option linter.unusedSimpArgs false
 set_option linter.unreachableTactic false
 namespace CnvVerif.Src
 open CnvVerif CnvVerif.Generated
@@ -28,6 +29,13 @@ theorem intTrunc_scaled (i r ploidy : Nat) :
   rw [intTrunc_nonneg _ h0]
   have : ((i : Rat) * (r : Rat)) = ((i * r : Nat) : Rat) := by push_cast; ring
   rw [this, floor_nat_div]
+
+/-- `int(q)` for any spelling `q` of `a / b` with naturals `a`, `b` -/
+theorem intTrunc_eq (q : Rat) (a b : Nat) (hq : q = (a : Rat) / (b : Rat)) :
+    (if q < 0 then ((q.ceil : Int) : Rat) else ((q.floor : Int) : Rat)) = (((a / b : Nat) : Int) : Rat) := by
+  subst hq
+  have h0 : (0 : Rat) ≤ (a : Rat) / (b : Rat) := by positivity
+  rw [intTrunc_nonneg _ h0, floor_nat_div]
 
 /-- `int(np.ceil(q))` is `ceil q` -/
 theorem intTrunc_ceil (q : Rat) :
@@ -64,12 +72,15 @@ theorem scan_from (thr : List Rat) (ploidy r : Nat) (v t : Rat) (k : Nat) :
     rw [List.findIdx?_cons]
     unfold src_absolute_threshold_scan
     by_cases hva : v ≤ a
-    · simp only [hva, decide_true, if_true, Nat.add_zero]
+    · simp only [hva, ge_iff_le, decide_true, if_true, Nat.add_zero]
       rw [scaledIdx_cast]
-      first
-      | (split <;> first | exact intTrunc_scaled _ _ _ | rfl)
-      | (split_ifs <;> first | exact intTrunc_scaled _ _ _ | rfl | (exfalso; simp_all))
-    · simp only [hva, decide_false, if_false, Bool.false_eq_true]
+      by_cases hrp : r = ploidy
+      · subst hrp; simp
+      · have h1 : (r : Rat) ≠ (ploidy : Rat) := by exact_mod_cast hrp
+        have h2 : (ploidy : Rat) ≠ (r : Rat) := fun h => h1 h.symm
+        simp only [ne_eq, h1, h2, not_false_eq_true, if_true, not_true_eq_false, if_false, not_not]
+        exact intTrunc_eq _ (k * r) ploidy (by push_cast; ring)
+    · simp only [hva, ge_iff_le, decide_false, if_false, Bool.false_eq_true]
       rw [ih (k + 1)]
       cases l.findIdx? (fun th => decide (v ≤ th)) with
       | none => rfl
